@@ -10,7 +10,7 @@ def _repo_commits():
 HOOKS = {
     "guard": "verif",
     "enable": "go test -tags verif in the harness module /verif/harness (go.mod: replace github.com/libp2p/go-libp2p-pubsub => /repo), so every check rebuilds /repo's working tree with the hooks on",
-    "baseline_off_cmd": "cd /repo && GOFLAGS=-mod=mod GOPROXY=off go test -vet=off -count=1 -timeout 25m ./...",
+    "baseline_off_cmd": "cd /repo && GOPROXY=off go test -mod=mod -json -vet=off -count=1 -timeout 25m ./...",
     "source_commits": _repo_commits(),
     "add_only": True,
 }
